@@ -40,6 +40,7 @@ import re
 import shlex
 import shutil
 import subprocess
+import zlib
 
 from mc import core, inputs
 
@@ -1085,13 +1086,28 @@ COMPL_VARIANTS = (('default', {}), ('custom-delims', {'delim': ';', 'range_delim
                   ('special-delims-positional', {'delim': '|', 'range_delim': '.'}))
 
 
-def complement_eval(L, start, end, vname='default'):
+def tokens_text(tokens, delim=',', range_delim='-'):
+    """Range string spelled token by token: (lo, hi, 1) -> 'lo', (lo, hi, 2) -> 'lo-hi' (lo <= hi)."""
+    return delim.join('%d' % lo if n == 1 else '%d%s%d' % (lo, range_delim, hi) for lo, hi, n in tokens)
+
+
+def tokens_values(tokens):
+    """The integers that a token list denotes (set semantics; small tokens only)."""
+    s = set()
+    for lo, hi, _ in tokens:
+        s.update(range(lo, hi + 1))
+    return sorted(s)
+
+
+def complement_eval(L, start, end, vname='default', tokens=None):
+    """tokens: the range string is spelled from these tokens (any order, overlapping, repeated) and L is the set
+    they denote; otherwise the range string is the canonical text of L."""
     su = _su()
     want = window_values(L, start, end)
     if want is None:
         return []
     dk = dict(COMPL_VARIANTS)[vname]
-    rs = ref_format(L, **dk)
+    rs = ref_format(L, **dk) if tokens is None else tokens_text(tokens, **dk)
     kw = dict(dk)
     pos = [rs]
     if vname in POSITIONAL:                  # as many leading arguments by position as the case spells out
@@ -1149,6 +1165,60 @@ def complement_shard(spec):
                     t.count(nontrivial=bool(want) and bool(L), sample=case)
                     for sig, exp, obs in complement_eval(L, s, e, vname):
                         t.bad(sig, case, exp, obs, tags=tags)
+    return t
+
+
+# complement_int_list takes a *range string* ("comma separated positive integers or ranges ... typical of a custom page
+# range string used in printer dialogs"), i.e. text that a person typed, not only what format_int_list prints.  The
+# statement's clause ("exactly the missing integers of the requested window") does not restrict the spelling, so every
+# string over a small grammar is enumerated: tokens v and lo-hi (lo <= hi, lo-lo included) over 0..n, up to k tokens in
+# any order - unsorted, overlapping, nested, adjacent, repeated.  Only spellings whose meaning is not open to
+# interpretation are used: no reversed ranges, blanks, empty tokens, signs or leading zeros.  Reference: set arithmetic.
+
+def range_string_tokens(n):
+    return [(v, v, 1) for v in range(n + 1)] + [(lo, hi, 2) for lo in range(n + 1) for hi in range(lo, n + 1)]
+
+
+def range_string_tags(tokens):
+    """One class per string (the first that applies), so that a defect groups into few (signature, tags) entries."""
+    pairs = [(a, b) for i, a in enumerate(tokens) for b in tokens[i + 1:]]
+    if any(a[:2] != b[:2] and ((a[0] <= b[0] and b[1] <= a[1]) or (b[0] <= a[0] and a[1] <= b[1])) for a, b in pairs):
+        kind = 'nested'
+    elif any(a[0] < b[0] <= a[1] < b[1] or b[0] < a[0] <= b[1] < a[1] for a, b in pairs):
+        kind = 'overlapping'
+    elif any(a[:2] == b[:2] for a, b in pairs):
+        kind = 'repeated-token'
+    elif any(n == 2 and lo == hi for lo, hi, n in tokens):
+        kind = 'lo-lo'
+    elif any(a[1] + 1 == b[0] or b[1] + 1 == a[0] for a, b in pairs):
+        kind = 'adjacent'
+    elif [t[:2] for t in tokens] != sorted(t[:2] for t in tokens):
+        kind = 'unsorted'
+    else:
+        kind = 'canonical'
+    return ['range-string', 'range-string:' + kind]
+
+
+def complement_strings_shard(spec):
+    _, first, n, lengths, wmax, variants = spec
+    t = inputs.Tally()
+    menu = range_string_tokens(n)
+    starts = [OMIT] + list(range(0, wmax + 1))
+    ends = [OMIT, None] + list(range(0, wmax + 1))
+    for length in lengths:
+        for rest in itertools.product(menu, repeat=length - 1):
+            tokens = [list(first)] + [list(x) for x in rest]
+            L = tokens_values(tokens)
+            plain = tokens_text(tokens) == ref_format(L)
+            for vname in variants:
+                for s in starts:
+                    for e in ends:
+                        want = window_values(L, s, e)
+                        case = {'family': 'complement', 'tokens': tokens, 'range_start': s, 'range_end': e,
+                                'variant': vname}
+                        t.count(nontrivial=bool(want) and not plain, sample=case)
+                        for sig, exp, obs in complement_eval(L, s, e, vname, tokens):
+                            t.bad(sig, case, exp, obs, tags=range_string_tags(tokens))
     return t
 
 
@@ -1493,6 +1563,89 @@ def extreme_ratios(plan):
             'smallest (noise, level 1)': round(m / len(gzip.compress(noise_bytes(m), 1, mtime=0)), 5)}
 
 
+# payloads that contain byte sequences which mean something to the container format.  Incompressible content is emitted
+# as *stored* DEFLATE blocks, i.e. verbatim and byte-aligned, so whatever the payload holds - the gzip magic, a complete
+# member, block headers, a trailer - appears literally inside the stream; a reader that looks for such sequences instead
+# of following the format (member splitting, resynchronisation, trailer search) is misled.  Directed, NOT exhaustive.
+EMBED_SIZES = (300, 4096, 66000)
+EMBED_PLACES = ('start', 'offset-1', 'middle', 'end', 'start+middle+end', 'every-1021')
+
+
+def embed_sequence(name):
+    member = gzip.compress(b'abc', 6, mtime=0)
+    if name == 'gzip-id':
+        return b'\x1f\x8b'
+    if name == 'gzip-magic':
+        return b'\x1f\x8b\x08'
+    if name == 'gzip-header':
+        return member[:10]
+    if name == 'gzip-header-with-name':
+        return b'\x1f\x8b\x08\x08\x00\x00\x00\x00\x00\x03name\x00'
+    if name == 'gzip-member':
+        return member
+    if name == 'gzip-member-empty':
+        return gzip.compress(b'', 6, mtime=0)
+    if name == 'gzip-member-stored':
+        return gzip.compress(noise_bytes(40)[8:], 1, mtime=0)
+    if name == 'two-gzip-members':
+        return member + gzip.compress(b'de', 9, mtime=0)
+    if name == 'gzip-trailer-of-empty':
+        return b'\x00' * 8
+    if name == 'deflate-final-empty-block+trailer':
+        return b'\x03\x00' + b'\x00' * 8
+    if name == 'deflate-stored-header-final':
+        return b'\x01\x00\x00\xff\xff'
+    if name == 'deflate-stored-header':
+        return b'\x00\x00\x00\xff\xff'
+    if name == 'deflate-sync-flush':
+        return b'\x00\x00\xff\xff'
+    if name == 'zlib-header':
+        return b'\x78\x9c'
+    if name == 'zlib-stream':
+        return zlib.compress(b'abc')
+    raise AssertionError(name)
+
+
+EMBED_SEQS = ('gzip-id', 'gzip-magic', 'gzip-header', 'gzip-header-with-name', 'gzip-member', 'gzip-member-empty',
+              'gzip-member-stored', 'two-gzip-members', 'gzip-trailer-of-empty', 'deflate-final-empty-block+trailer',
+              'deflate-stored-header-final', 'deflate-stored-header', 'deflate-sync-flush', 'zlib-header', 'zlib-stream')
+
+
+def embed_payload(name, n, place):
+    """n incompressible bytes in which the sequence replaces the content at the given place(s)."""
+    if place.startswith('whole'):                      # the payload *is* a gzip stream of one / two stored members
+        whole = gzip.compress(noise_bytes(n), 6, mtime=0)
+        return whole if place == 'whole' else whole + gzip.compress(noise_bytes(n // 2), 1, mtime=0)
+    seq = embed_sequence(name)
+    out = bytearray(noise_bytes(n + 16)[16:])          # not the very bytes that 'gzip-member-stored' holds
+    if place == 'every-1021':
+        offs = list(range(7, n - len(seq), 1021))
+    else:
+        where = {'start': 0, 'offset-1': 1, 'middle': n // 2, 'end': n - len(seq)}
+        offs = [where[p] for p in place.split('+')]
+    for o in offs:
+        out[o:o + len(seq)] = seq
+    assert len(out) == n
+    return bytes(out)
+
+
+def gzip_embed_shard(spec):
+    _, name, level = spec
+    t = inputs.Tally()
+    seq = embed_sequence(name)
+    for n in EMBED_SIZES:
+        for place in EMBED_PLACES + (('whole', 'whole+second-member') if name == 'gzip-member' else ()):
+            if n > 4096 and place in ('offset-1', 'start+middle+end'):
+                continue
+            b = embed_payload(name, n, place)
+            case = {'family': 'gzip', 'embed': name, 'size': n, 'place': place, 'level': level, 'how': 'pos'}
+            ref = gzip.compress(b, 6 if level is None else level, mtime=0)
+            t.count(nontrivial=(b'\x1f\x8b\x08' if place.startswith('whole') else seq) in ref[10:-8], sample=case)        # the sequence is literally inside the stream
+            for sig, exp, obs in gzip_eval(b, level, 'pos'):
+                t.bad(sig, case, exp, obs, tags=['embedded-container-bytes', 'embed:' + name.split('-')[0]])
+    return t
+
+
 def gzip_eval(b, level, how):
     su = _su()
     v = []
@@ -1560,6 +1713,7 @@ def bounds(tier):
         'cmd_maxlen': 5 if q else 6, 'cmd_depth': 1 if q else 2, 'cmd_pair_len': 2 if q else 3,
         'int_subset_n': 10 if q else 13, 'int_list_len': 4 if q else 5,
         'compl_n': 10 if q else 12, 'compl_wmax': 12 if q else 14,
+        'rs_n': 4 if q else 5, 'rs_n3': 3 if q else 4,         # range strings: values 0..n with 1-2 tokens / with 3
         'gzip_maxlen': 5 if q else 7,
     }
 
@@ -1594,6 +1748,12 @@ def run(ctx):
     n = B['compl_n']
     inputs.run_shards(ctx, complement_shard, [('compl', n, high, hb, B['compl_wmax']) for high in range(1 << hb)],
                       part='int:complement', rule='non-empty list and non-empty expected complement')
+    rs_shards = [('rs', tok, B['rs_n'], (1, 2), B['rs_n'] + 2, ('default', 'custom-delims'))
+                 for tok in range_string_tokens(B['rs_n'])]
+    rs_shards += [('rs', tok, B['rs_n3'], (3,), B['rs_n3'] + 2, ('default',)) for tok in range_string_tokens(B['rs_n3'])]
+    inputs.run_shards(ctx, complement_strings_shard, rs_shards, part='int:complement:range-strings',
+                      rule='the range string is not the canonical text of its integers (unsorted, overlapping, nested, '
+                           'adjacent or repeated tokens, lo-lo) and the expected complement is non-empty')
     centres = magnitude_centres()
     inputs.run_shards(ctx, int_magnitude_shard, [('mag', centres[i::32]) for i in range(32)],
                       part='int:format/parse:magnitudes', rule='same rule as int:format/parse')
@@ -1602,6 +1762,13 @@ def run(ctx):
                       part='int:complement:magnitudes', rule='non-empty list and non-empty expected complement')
     inputs.run_shards(ctx, gzip_shard, [('gz', lv, B['gzip_maxlen']) for lv in [None] + list(range(1, 10))],
                       part='gzip', rule='non-empty byte string')
+    noise_bytes(max(EMBED_SIZES) + 16)
+    emb = [('embed', name, lv) for name in EMBED_SEQS for lv in ALL_LEVELS]
+    emb.sort(key=lambda x: x[1] != 'gzip-magic')        # simplest first
+    inputs.run_shards(ctx, gzip_embed_shard, emb, part='gzip:embedded-container-bytes',
+                      rule='the embedded sequence occurs literally inside the compressed stream of the reference '
+                           'encoder (stored blocks)')
+    ctx.coverage['parts']['gzip:embedded-container-bytes']['exhaustive'] = False
     all_sizes, few_sizes = bulk_sizes(ctx.tier)
     bulk_payload(max(all_sizes + few_sizes))          # built once, inherited by the forked workers
     bulk = [('bulk', lv, n) for n in all_sizes for lv in [None] + list(range(1, 10))]
@@ -1653,6 +1820,12 @@ def run(ctx):
                                       % (B['compl_wmax'], B['compl_wmax']),
                 'complement_variants': [v for v, _ in COMPL_VARIANTS],
                 'complement_positional_variant': 'only for the subsets of range(%d)' % (B['compl_n'] - hb),
+                'complement_range_strings': 'every string of 1..2 tokens (default and custom delimiters) over v and '
+                                            'lo-hi, 0 <= lo <= hi <= n = %d, and of 3 tokens with n = %d (default '
+                                            'delimiters), any order, overlapping, nested, repeated; windows range_start '
+                                            'in {omitted, 0..n+2} x range_end in {omitted, None, 0..n+2}; reversed '
+                                            'ranges, blanks, empty tokens, signs, leading zeros not explored'
+                                            % (B['rs_n'], B['rs_n3']),
                 'magnitudes': {
                     'centres': '%d values: 2**k-1/+0/+1 for k=7..66, 10**k-1/+0/+1 for k=2..21, neighbours of '
                                '2**mant_dig, sys.maxsize, 2*sys.maxsize+1, and 10**23+1, 2**100+1, 2**128-1, 10**30+1, '
@@ -1676,6 +1849,14 @@ def run(ctx):
                           'note': 'directed size ladder (powers of two -1/+0/+1 and integer constants of '
                                   'boltons.strutils, gzip and io with neighbours and multiples); the content is not '
                                   'enumerated, thresholds above the largest size are not reached'},
+                 'embedded_container_bytes': {
+                     'sequences': list(EMBED_SEQS), 'sizes': list(EMBED_SIZES), 'places': list(EMBED_PLACES),
+                     'whole_payloads': 'gzip stream of the noise (one member; two members) as the payload, per size',
+                     'levels': 'default, 1..9', 'exhaustive': False,
+                     'note': 'directed: incompressible SHAKE-256 output (emitted as stored blocks, so the sequence '
+                             'appears verbatim and byte-aligned in the stream) holding gzip/zlib/DEFLATE framing '
+                             'bytes at the stated places; sequences inside Huffman-coded blocks (not byte-aligned) '
+                             'cannot be placed and are not explored'},
                  'content_extremes': {
                      'kinds': list(EXTREME_KINDS),
                      'largest_size_per_kind': {k: max(x[1] for x in plan if x[0] == k) for k in EXTREME_KINDS},
@@ -1736,7 +1917,9 @@ def replay(ctx, data):
         for v in int_eval(case['list'], case['variant'], kw):
             add(*v)
     elif fam == 'complement':
-        for v in complement_eval(case['list'], case['range_start'], case['range_end'], case.get('variant', 'default')):
+        toks = case.get('tokens')
+        L = tokens_values(toks) if toks is not None else case['list']
+        for v in complement_eval(L, case['range_start'], case['range_end'], case.get('variant', 'default'), toks):
             add(*v)
     elif fam == 'gzip':
         if 'bulk' in case:
@@ -1745,6 +1928,8 @@ def replay(ctx, data):
             b = structured_bytes(case['structured'])
         elif 'extreme' in case:
             b = extreme_payload(case['extreme'], case['size'])
+        elif 'embed' in case:
+            b = embed_payload(case['embed'], case['size'], case['place'])
         else:
             b = bytes(case['bytes'])
         for v in gzip_eval(b, case['level'], case.get('how', 'pos')):
